@@ -30,6 +30,9 @@ import logging  # noqa: E402
 _null = logging.NullHandler()
 
 
+FORCE_TRACE = False  # set by the runner for the "+trace" variant of a task: the whole task runs with enableTrace(True)
+
+
 def reset_globals():
     """Process-wide state of the library, reset before every execution."""
     jar = getattr(_handshake, "CookieJar", None)
@@ -38,10 +41,13 @@ def reset_globals():
     websocket.setdefaulttimeout(None)
     websocket.setReconnect(0)
     websocket.enableTrace(False)
+    if FORCE_TRACE:
+        set_trace(True)
 
 
 def set_trace(on):
     """Trace logging on/off without the default stderr handler."""
+    on = on or FORCE_TRACE
     websocket.enableTrace(bool(on), handler=_null, level="DEBUG")  # the public switch; the NullHandler keeps stderr quiet
     lg = logging.getLogger("websocket")
     lg.propagate = False
